@@ -159,11 +159,13 @@ def joinStrs (bs : List Str) : String := ",".intercalate (bs.map String.ofList)
 
 def isACGT (c : Char) : Bool := c = 'A' || c = 'C' || c = 'G' || c = 'T'
 
-/-- the property's quantifier, exactly: orders 2..8, lengths n..60, 0..5 bans of length 2..8 over
-A,C,G,T (upper case), 0..3 filters.  Everything else is compared with the model but not judged. -/
+/-- the property's quantifier — orders 2..8, lengths n..60, 0..5 bans over A,C,G,T (upper case),
+0..3 filters — with ONE deliberate extension: a ban may have any length ≥ 2, not only 2..8 (the laws
+are proved for every ban list, and the repository's own examples ban words of 11 and 14 letters).
+Everything else is compared with the model but not judged. -/
 def inDomain (c : BcCase) : Bool :=
   decide (2 ≤ c.n ∧ c.n ≤ 8 ∧ c.n ≤ c.length ∧ c.length ≤ 60 ∧ c.bans.length ≤ 5 ∧ c.filters.length ≤ 3) &&
-  c.bans.all (fun b => decide (2 ≤ b.length ∧ b.length ≤ 8) && b.toList.all isACGT)
+  c.bans.all (fun b => decide (2 ≤ b.length) && b.toList.all isACGT)
 
 structure BcVerdict where
   corr : Bool
@@ -189,7 +191,8 @@ def judgeBc (c : BcCase) (reply : Option (List String)) (st : String) : BcVerdic
   let (j, why) := match reply with
     | some [dbS, cnt, joined, _] =>
       let db := dbS.toList
-      let bs : List Str := if cnt = "0" then [] else (joined.splitOn ",").map String.toList
+      -- the list field is always read; the count field must agree with it (an in-domain barcode is never empty)
+      let bs : List Str := if joined = "" then [] else (joined.splitOn ",").map String.toList
       let dbOk := if mdb == Res.ok db ∧ n < dbOkTable.size then dbOkTable[n]! else Spec.checkWith (passes n) n db
       let l0 := toString bs.length == cnt
       let l1 := lawSubstrings n c.length db.toArray bs
